@@ -41,8 +41,8 @@ SPEC = {
          "configs": {n: {"quick": 500, "thorough": 30000} for n in _MX}, "chunk": 25},
         {"name": "mx_gcc", "src": ["c15_main.cpp", "c15_mx_a.cpp", "c15_mx_b.cpp", "c15_mx_c.cpp"], "variant": "gasan", "tiers": ["thorough"],
          "configs": {n: {"thorough": 3000} for n in _MX}, "chunk": 25},
-        {"name": "st_gcc", "src": _SRC, "variant": "gasan", "tiers": ["thorough"],
-         "configs": {("st_" + n): {"thorough": 5000} for n in _OPTS}, "chunk": 25},
+        {"name": "st_gcc", "src": _SRC, "variant": "gasan",
+         "configs": {("st_" + n): {"quick": 100, "thorough": 5000} for n in _OPTS}, "chunk": 25},
     ],
     "extra": _extra,
     "floors": {"quick": {"scenario.copy_ctor": 200, "scenario.move_assign": 200, "scenario.self_copy_assign": 100, "scenario.serialize": 200,
